@@ -150,6 +150,10 @@ class FunctionVerifier(object):
             self.ex.cur_func.pop()
         return cond, extra
 
+    def spec_pre(self, src, f):
+        """raises-conditions speak about the pre-state (same as spec_in for pure functions)"""
+        return self.spec_in(src, f)
+
     def build_obligations(self, pre, finals):
         c, fid = self.c, self.c.fid
         obs = []
@@ -172,10 +176,10 @@ class FunctionVerifier(object):
             ob = Obligation('%s#raises[%s]' % (fid, exc_name), '%s iff %s' % (exc_name, src))
             for f in excs:
                 if f.exc == exc_name:
-                    cond, extra = self.spec_in(src, f)
+                    cond, extra = self.spec_pre(src, f)
                     ob.vcs.append(PathVC(list(f.pc) + list(extra), cond, f.trace, 'raises=>cond'))
             for f in rets:
-                cond, extra = self.spec_in(src, f)
+                cond, extra = self.spec_pre(src, f)
                 ob.vcs.append(PathVC(list(f.pc) + list(extra), Not(cond), f.trace, 'cond=>raises',
                                      note='returned although the contract says it raises %s' % exc_name))
             obs.append(ob)
@@ -183,7 +187,7 @@ class FunctionVerifier(object):
             ob = Obligation('%s#may_raise[%s]' % (fid, exc_name), '%s only if %s' % (exc_name, src))
             for f in excs:
                 if f.exc == exc_name:
-                    cond, extra = self.spec_in(src, f)
+                    cond, extra = self.spec_pre(src, f)
                     ob.vcs.append(PathVC(list(f.pc) + list(extra), cond, f.trace, 'raises=>cond'))
             obs.append(ob)
         # escaping: no other exception type may leave the function
@@ -238,7 +242,7 @@ class FunctionVerifier(object):
     def discharge_cover(self, ob):
         vc = ob.vcs[0]
         q = make_query(vc.pc, FALSE, list(self.params.values()), self.extra_prelude)
-        r = solve.check(q, self.timeout_s, self.solvers, tag='cover')
+        r = solve.check(q, min(self.timeout_s, 3), self.solvers, tag='cover')
         ob.ms, ob.backend = r.ms, r.solver
         if r.status == 'sat' and self.paths > 0:
             ob.verdict = 'proved'
@@ -270,8 +274,8 @@ class FunctionVerifier(object):
             ob.model = vc.result[3]
         elif unknown:
             ob.verdict = 'undecided'
-            ob.detail = '%d/%d path VCs undecided (%s)' % (len(unknown), len(ob.vcs),
-                                                        unknown[0].result[0])
+            ob.detail = '%d/%d path VCs undecided (%s): %s path %s' % (
+                len(unknown), len(ob.vcs), unknown[0].result[0], unknown[0].note, unknown[0].trace[-5:])
         else:
             ob.verdict = 'proved'
             ob.detail = '%d path VCs unsat' % len(ob.vcs)
